@@ -8,8 +8,15 @@ From Unodb Require Import Base.Lex.
 Import ListNotations.
 Local Open Scope Z_scope.
 
-Inductive lop := LGet (k : list Z) | LInsert (k v : list Z) | LRemove (k : list Z).
-Inductive lres := LVal (o : option (list Z)) | LBool (b : bool).
+(** point operations, and the two successor queries a scan is made of (C09):
+    [LNext lo strict hi]: the entry with the least key k such that lo <= k
+    (lo < k when strict) and k < hi when an upper bound is given;
+    [LPrev hi strict lo]: the mirror image for reverse scans *)
+Inductive lop :=
+| LGet (k : list Z) | LInsert (k v : list Z) | LRemove (k : list Z)
+| LNext (lo : list Z) (strict : bool) (hi : option (list Z))
+| LPrev (hi : list Z) (strict : bool) (lo : option (list Z)).
+Inductive lres := LVal (o : option (list Z)) | LBool (b : bool) | LEntry (o : option (list Z * list Z)).
 
 (** a completed call: operation, result, invocation and response time stamps *)
 Record call := { c_op : lop; c_res : lres; c_inv : nat; c_ret : nat }.
@@ -21,8 +28,31 @@ Fixpoint s_get (k : list Z) (m : smap) : option (list Z) :=
 Fixpoint s_del (k : list Z) (m : smap) : smap :=
   match m with [] => [] | (k', v) :: m' => if lex_eqb k k' then s_del k m' else (k', v) :: s_del k m' end.
 
+Definition in_next (lo : list Z) (strict : bool) (hi : option (list Z)) (k : list Z) : bool :=
+  (if strict then lex_ltb lo k else lex_leb lo k) && match hi with None => true | Some h => lex_ltb k h end.
+Definition in_prev (hi : list Z) (strict : bool) (lo : option (list Z)) (k : list Z) : bool :=
+  (if strict then lex_ltb k hi else lex_leb k hi) && match lo with None => true | Some l => lex_ltb l k end.
+
+(** the entry with the least (greatest) key satisfying p *)
+Fixpoint s_min (p : list Z -> bool) (m : smap) : option (list Z * list Z) :=
+  match m with
+  | [] => None
+  | (k, v) :: m' =>
+      let r := s_min p m' in
+      if p k then match r with Some (k', _) => if lex_ltb k' k then r else Some (k, v) | None => Some (k, v) end else r
+  end.
+Fixpoint s_max (p : list Z -> bool) (m : smap) : option (list Z * list Z) :=
+  match m with
+  | [] => None
+  | (k, v) :: m' =>
+      let r := s_max p m' in
+      if p k then match r with Some (k', _) => if lex_ltb k k' then r else Some (k, v) | None => Some (k, v) end else r
+  end.
+
 Definition s_apply (m : smap) (o : lop) : smap * lres :=
   match o with
+  | LNext lo strict hi => (m, LEntry (s_min (in_next lo strict hi) m))
+  | LPrev hi strict lo => (m, LEntry (s_max (in_prev hi strict lo) m))
   | LGet k => (m, LVal (s_get k m))
   | LInsert k v => match s_get k m with Some _ => (m, LBool false) | None => ((k, v) :: m, LBool true) end
   | LRemove k => match s_get k m with Some _ => (s_del k m, LBool true) | None => (m, LBool false) end
@@ -33,6 +63,8 @@ Definition lres_eqb (a b : lres) : bool :=
   | LBool x, LBool y => Bool.eqb x y
   | LVal None, LVal None => true
   | LVal (Some x), LVal (Some y) => lex_eqb x y
+  | LEntry None, LEntry None => true
+  | LEntry (Some (k, v)), LEntry (Some (k', v')) => lex_eqb k k' && lex_eqb v v'
   | _, _ => false
   end.
 
